@@ -346,7 +346,7 @@ def run_real_once(case, timeout=4):
 def run_real(case, timeout=4):
     r = run_real_once(case, timeout)
     if r['kind'] == 'timeout':          # believed only when it repeats with a much longer allowance
-        r = run_real_once(case, 8 * timeout)
+        r = run_real_once(case, 4 * timeout)
     return r
 
 
@@ -553,7 +553,7 @@ def run(env, res):
             small = shrink(case, drv, f[0])
             g = fails(small, drv, f[0]) or f
             res.fail(g[0], '.'.join(a['op'] for a in small['ops'])[:60], g[1], case_to_json(small))
-            if len(res.failures) >= 8:
+            if len(res.failures) >= 8 or sum('watchdog' in x.what for x in res.failures) >= 2:
                 break
     res.extra['histogram'] = hist
     res.extra['correspondence_wall_s'] = round(time.time() - t0, 1)
